@@ -11,10 +11,16 @@ import (
 func (u *UseCase) Begin(ctx context.Context, isoLevel model.TxIsoLevel) (string, error) {
 	id := u.idGen.Generate()
 
+	// The begin number stays reserved until the transaction is registered:
+	// otherwise the collector could draw a later horizon in between and remove
+	// versions this transaction is entitled to read.
+	seq, release := sequence.Reserve()
+	defer release()
+
 	err := u.txRepo.Store(ctx, model.Transaction{
 		Id:       id,
 		IsoLevel: isoLevel,
-		Seq:      sequence.Next(),
+		Seq:      seq,
 	})
 	if err != nil {
 		return "", fmt.Errorf("tx repository store: %w", err)
